@@ -6,7 +6,7 @@
    independence (ReplLineIndependence) is the specification itself; the harness runs every SEQUENCE of lines up to a
    length bound through the real REPL and demands, for every position, exactly the emitted response of that line. *)
 EXTENDS BornoFront, BornoSem, SequencesExt
-CONSTANTS EmitOn
+CONSTANTS EmitOn, CheckLong
 
 KW(k) == Keyword[k]
 T(s) == StrCps(s)
@@ -19,6 +19,14 @@ OneLine(t) == LET u == IF "ln" \in DOMAIN t THEN [t EXCEPT !.ln = 1] ELSE t IN
               IF "c" \in DOMAIN u THEN [u EXCEPT !.c = [i \in 1..Len(u.c) |-> OneLine(u.c[i])]] ELSE u
 DeepTree == OneLine(Prog(<< SFun("r", <<"n">>, << SIf(Bin("<", Id("n"), Lit(N(1))), SReturn(Bin("-", Lit(VNil), Lit(N(1)))), None), SReturn(Call(Id("r"), <<Bin("-", Id("n"), Lit(N(1)))>>)) >>),
                             SExpr(Call(Id("r"), <<Lit(N(150))>>)) >>))
+(* a line longer than any reasonable input buffer (4200 letters in one string literal).  The declarative front end needs
+   minutes for it, so its one-statement tree is given directly; the assumption that the front end agrees is checked in
+   the thorough tier only (CheckLong). *)
+RECURSIVE Rep(_, _)
+Rep(ch, n) == IF n = 0 THEN <<>> ELSE <<ch>> \o Rep(ch, n - 1)
+LongBody == Rep(97, 4200)
+LongText == <<34>> \o LongBody \o <<34, 59>>
+LongTree == OneLine(Prog(<< SExpr(Lit(VStr(LongBody))) >>))
 Pool == <<
   KW("PRINT") \o T(" 1 + 2;"),
   T("7;"), T("\"s\";"), T("nil;"), KW("TRUE") \o T(";"), T("[1, 2];"), T("{k: 1};"), T("({k: 1, m: \"v\"});"), T("1 < 2;"), T("2 ** 10;"), T("\"a\" + 1;"), T("0.1 + 0.2;"), Builtin["len"] \o T("([1, 2, 3]);"),
@@ -33,10 +41,12 @@ Pool == <<
   T(""), T("   "), T("// only a comment"), T("/* c */ 5;"),
   Builtin["len"] \o T(" = 0; ") \o Builtin["len"] \o T(";"), KW("VAR") \o T(" x = 1; x = zz; x;"),
   \* a line that fails 150 calls deep (sessions repeat it: whatever a failed line leaves behind must not add up), and lines that end in a comment
-  T("1 + 2; // tail"), T("\"50%\";"), T("\"%d %s\" + 1;"), DeepText >>
+  T("1 + 2; // tail"), T("\"50%\";"), T("\"%d %s\" + 1;"), LongText, DeepText >>
 
 DeepIdx == Len(Pool)
-Fronts == [i \in 1..Len(Pool) |-> IF i = DeepIdx THEN [accept |-> TRUE, tree |-> DeepTree] ELSE FrontEnd(Pool[i])]
+LongIdx == Len(Pool) - 1
+Fronts == [i \in 1..Len(Pool) |-> IF i = DeepIdx THEN [accept |-> TRUE, tree |-> DeepTree] ELSE IF i = LongIdx THEN [accept |-> TRUE, tree |-> LongTree] ELSE FrontEnd(Pool[i])]
+ASSUME CheckLong => LET f == FrontEnd(LongText) IN f.accept /\ f.tree = LongTree
 ASSUME LET f == FrontEnd(DeepText) IN f.accept /\ f.tree = DeepTree
 FamProgOf(i) == IF Fronts[i].accept THEN Fronts[i].tree ELSE Prog(<<>>)
 Init == \E i \in 1..Len(Pool) :
